@@ -490,6 +490,227 @@ Proof.
 Qed.
 End Single.
 
+(* ---- refinement of the whole density: one epoch cut in two, any tree ---- *)
+Lemma Qle_bool_true a b : Qle_bool a b = true -> Q2R a <= Q2R b.
+Proof. intros H. apply Qle_Rle, Qle_bool_iff, H. Qed.
+Lemma Qle_bool_false a b : Qle_bool a b = false -> Q2R b < Q2R a.
+Proof.
+  intros H. apply Qlt_Rlt, Qnot_le_lt. intro H1. apply Qle_bool_iff in H1. congruence.
+Qed.
+Lemma Qle_bool_of_R a b : Q2R a <= Q2R b -> Qle_bool a b = true.
+Proof. intros H. apply Qle_bool_iff, Rle_Qle, H. Qed.
+Lemma Qle_bool_of_R_false a b : Q2R b < Q2R a -> Qle_bool a b = false.
+Proof.
+  intros H. destruct (Qle_bool a b) eqn:E; auto. apply Qle_bool_true in E. lra.
+Qed.
+Lemma Qpos_bool_0 : Qpos_bool 0 = false.
+Proof. reflexivity. Qed.
+Lemma ofZ_R z : ofZ NumR z = IZR z.
+Proof. unfold ofZ. cbn [ofQ NumR]. unfold Q2R. cbn. field. Qed.
+
+Section Refine2.
+Variables (l u p : R) (rho c T : Q).
+Hypotheses (Hl : 0 < l) (Hu : 0 < u) (Hp : 0 < p) (Hr : 0 <= Q2R rho <= 1).
+Hypotheses (Hc0 : 0 < Q2R c) (HcT : Q2R c < Q2R T).
+Let e  := mkEp l u p rho 0%Q T.
+Let e1 := mkEp l u p 0%Q 0%Q c.
+Let e2 := mkEp l u p rho c T.
+Let s  := solve_epoch NumR e (c1 NumR).
+Let s2 := solve_epoch NumR e2 (c1 NumR).
+Let s1 := solve_epoch NumR e1 (sp s2).
+Let A := sA s.
+Let B := sB s.
+Let B1 := sB s1.
+Let delta := Q2R T - Q2R c.
+Let K := ln (Qf A B delta).
+
+Lemma wf1 : wf_ep e1.
+Proof. unfold wf_ep, e1; cbn [elam emu epsi erho et0 et1]. rewrite Q2R_0. repeat split; auto; lra. Qed.
+Lemma wf2 : wf_ep e2.
+Proof. unfold wf_ep, e2; cbn [elam emu epsi erho et0 et1]. repeat split; auto; lra. Qed.
+Lemma wf0 : wf_ep e.
+Proof. unfold wf_ep, e; cbn [elam emu epsi erho et0 et1]. rewrite Q2R_0. repeat split; auto; lra. Qed.
+Lemma one01 : 0 <= c1 NumR <= 1.
+Proof. unfold c1; cbn [one NumR]; lra. Qed.
+
+Lemma Href : refines l u p c T s1 s2 s.
+Proof. exact (split_solve l u p rho 0%Q c T (c1 NumR) wf1 wf2 one01). Qed.
+
+Lemma sA1 : sA s1 = A. Proof. apply Href. Qed.
+Lemma sA2 : sA s2 = A. Proof. apply Href. Qed.
+Lemma sB2 : sB s2 = B. Proof. apply Href. Qed.
+Lemma sp1 : sp s1 = sp s. Proof. apply Href. Qed.
+
+Lemma sp2_range : 0 <= sp s2 <= 1.
+Proof.
+  unfold s2. rewrite solve_epoch_R. cbn [sp].
+  apply (epoch_facts e2 (c1 NumR) (dur e2) wf2 one01 (dur_nonneg e2 wf2)).
+Qed.
+
+Lemma Q_pos tau : 0 <= tau -> 0 < Qf A B tau.
+Proof.
+  intros Ht. unfold A, B, s. rewrite solve_epoch_R. cbn [sA sB].
+  apply (epoch_facts e (c1 NumR) tau wf0 one01 Ht).
+Qed.
+Lemma Q1_pos tau : 0 <= tau -> 0 < Qf A B1 tau.
+Proof.
+  intros Ht. rewrite <- sA1. unfold B1, s1. rewrite solve_epoch_R. cbn [sA sB].
+  apply (epoch_facts e1 (sp s2) tau wf1 sp2_range Ht).
+Qed.
+
+(* ln q of the whole epoch = ln q of the earlier half + K *)
+Lemma lnq_split tau : 0 <= tau -> ln (Qf A B (tau + delta)) = ln (Qf A B1 tau) + K.
+Proof.
+  intros Ht. destruct Href as (_ & E1 & _ & _ & Hf). destruct (Hf tau Ht) as (_ & Hq).
+  fold A B in Hq. rewrite E1 in Hq. fold A B1 delta in Hq.
+  rewrite <- Hq. unfold K. apply ln_mult. apply Q1_pos; auto. apply Q_pos. unfold delta; lra.
+Qed.
+
+(* epoch lookups *)
+Lemma idx_right_split x :
+  idx_right [0%Q; c; T] x 2 = if Qle_bool c x then 1%nat else 0%nat.
+Proof.
+  unfold idx_right. cbn [count_if].
+  destruct (Qle_bool c x) eqn:Ec.
+  - apply Qle_bool_true in Ec.
+    rewrite (Qle_bool_of_R 0 x) by (rewrite Q2R_0; lra).
+    destruct (Qle_bool T x); reflexivity.
+  - apply Qle_bool_false in Ec.
+    rewrite (Qle_bool_of_R_false T x) by lra.
+    destruct (Qle_bool 0 x); reflexivity.
+Qed.
+
+Lemma idx_left_split y :
+  Q2R y <= Q2R T ->
+  idx_left [0%Q; c; T] y 2 = if Qle_bool y c then 0%nat else 1%nat.
+Proof.
+  intros Hy. unfold idx_left, Qlt_bool. cbn [count_if].
+  rewrite (Qle_bool_of_R y T) by lra. cbn [negb].
+  destruct (Qle_bool y c) eqn:Ec; cbn [negb].
+  - destruct (Qle_bool y 0); reflexivity.
+  - apply Qle_bool_false in Ec.
+    rewrite (Qle_bool_of_R_false y 0) by (rewrite Q2R_0; lra). reflexivity.
+Qed.
+
+Definition es2 := [(e1, s1); (e2, s2)].
+
+Lemma birth_split x :
+  Q2R x <= Q2R T ->
+  birth_term NumR [0%Q; T] 1 [(e, s)] x =
+  birth_term NumR [0%Q; c; T] 2 es2 x + (if Qlt_bool x c then K else 0).
+Proof.
+  intros Hx. unfold birth_term. rewrite idx_right_split. unfold idx_right. rewrite clampi_1.
+  cbn [lk]. unfold Qlt_bool.
+  destruct (Qle_bool c x) eqn:Ec; cbn [negb lk es2]; rewrite !log_q_R; cbn [elam e e1 e2 et1 add nln NumR].
+  - rewrite sA2, sB2. fold A B. lra.
+  - apply Qle_bool_false in Ec. rewrite sA1. fold A B B1.
+    replace (Q2R T - Q2R x) with ((Q2R c - Q2R x) + delta) by (unfold delta; ring).
+    rewrite lnq_split by lra. lra.
+Qed.
+
+Lemma rho_tip_split y : is_rho_tip [e1; e2] y = is_rho_tip [e] y.
+Proof.
+  unfold is_rho_tip. cbn [existsb et1 erho e e1 e2]. rewrite Qpos_bool_0, andb_false_r. reflexivity.
+Qed.
+
+Lemma tip_split y :
+  Q2R y <= Q2R T ->
+  tip_term NumR [0%Q; T] 1 [e] [(e, s)] None y =
+  tip_term NumR [0%Q; c; T] 2 [e1; e2] es2 None y - (if Qle_bool y c then K else 0).
+Proof.
+  intros Hy. unfold tip_term. rewrite rho_tip_split.
+  destruct (is_rho_tip [e] y) eqn:Er.
+  - (* a rho-tip sits at T > c *)
+    unfold is_rho_tip in Er. cbn [existsb et1 erho e] in Er. rewrite orb_false_r in Er.
+    apply andb_prop in Er. destruct Er as [Er _]. apply Qeq_bool_eq in Er. apply Qeq_eqR in Er.
+    rewrite (Qle_bool_of_R_false y c) by lra. cbn [zero NumR]. lra.
+  - rewrite idx_left_split by auto. unfold idx_left. rewrite clampi_1. cbn [lk].
+    destruct (Qle_bool y c) eqn:Ec; cbn [lk es2]; rewrite !log_q_R; cbn [epsi e e1 e2 et1 sub nln NumR].
+    + apply Qle_bool_true in Ec. rewrite sA1. fold A B B1.
+      replace (Q2R T - Q2R y) with ((Q2R c - Q2R y) + delta) by (unfold delta; ring).
+      rewrite lnq_split by lra. lra.
+    + rewrite sA2, sB2. fold A B. lra.
+Qed.
+
+Lemma births_sum_split xs :
+  List.Forall (fun x => Q2R x <= Q2R T) xs ->
+  births_sum NumR [0%Q; T] 1 [(e, s)] xs =
+  births_sum NumR [0%Q; c; T] 2 es2 xs + INR (count_if (fun x => Qlt_bool x c) xs) * K.
+Proof.
+  unfold births_sum. induction 1 as [|x xs Hx Hxs IH].
+  - cbn. lra.
+  - cbn [map nsum count_if add NumR]. rewrite IH, (birth_split x Hx).
+    destruct (Qlt_bool x c); [rewrite S_INR|]; lra.
+Qed.
+
+Lemma tips_nsum_split ys :
+  List.Forall (fun y => Q2R y <= Q2R T) ys ->
+  nsum NumR (map (tip_term NumR [0%Q; T] 1 [e] [(e, s)] None) ys) =
+  nsum NumR (map (tip_term NumR [0%Q; c; T] 2 [e1; e2] es2 None) ys)
+  - INR (count_if (fun y => Qle_bool y c) ys) * K.
+Proof.
+  induction 1 as [|y ys Hy Hys IH].
+  - cbn. lra.
+  - cbn [map nsum count_if add NumR]. rewrite IH, (tip_split y Hy).
+    destruct (Qle_bool y c); [rewrite S_INR|]; lra.
+Qed.
+
+(* without serially sampled tips no tip lies at or before the cut *)
+Lemma no_serial_count tips :
+  List.Forall (fun h => 0 <= Q2R h) tips -> existsb Qpos_bool tips = false ->
+  count_if (fun y => Qle_bool y c) (map (fun h => (T - h)%Q) tips) = O.
+Proof.
+  induction 1 as [|h tips Hh Ht IH]; intros Hs; [reflexivity|].
+  cbn [existsb] in Hs. apply orb_false_elim in Hs. destruct Hs as [Hh0 Hs].
+  cbn [map count_if]. rewrite (IH Hs).
+  unfold Qpos_bool, Qlt_bool in Hh0. apply negb_false_iff in Hh0. apply Qle_bool_true in Hh0.
+  rewrite Q2R_0 in Hh0.
+  rewrite Qle_bool_of_R_false; [reflexivity|]. rewrite Q2R_minus. lra.
+Qed.
+
+Lemma Forall_sub_le hs :
+  List.Forall (fun h => 0 <= Q2R h) hs ->
+  List.Forall (fun x => Q2R x <= Q2R T) (map (fun h => (T - h)%Q) hs).
+Proof.
+  induction 1; cbn [map]; constructor; auto. rewrite Q2R_minus. lra.
+Qed.
+
+Lemma refine2_l survival tips ints :
+  List.Forall (fun h => 0 <= Q2R h) tips -> List.Forall (fun h => 0 <= Q2R h) ints ->
+  log_prob NumR survival None [e1; e2] tips ints = log_prob NumR survival None [e] tips ints.
+Proof.
+  intros Htips Hints.
+  unfold log_prob.
+  cbn [length times_of lastq map back combine fst et0 et1 e e1 e2].
+  fold e e1 e2. fold s2. fold s1. fold s. fold es2.
+  set (xs := map (fun h => (T - h)%Q) ints). set (ys := map (fun h => (T - h)%Q) tips).
+  rewrite (births_sum_split xs (Forall_sub_le ints Hints)).
+  (* survival / first term *)
+  assert (Hfirst : first_term NumR e s = first_term NumR e1 s1 + K).
+  { unfold first_term. cbn [et1 e e1 sub zero mul nexp nln ofQ NumR]. rewrite !qform_R, sA1. fold A B B1.
+    rewrite !Rminus_0_r. replace (Q2R T) with (Q2R c + delta) by (unfold delta; ring).
+    apply lnq_split. lra. }
+  assert (Hsurv : surv_term NumR survival e s = surv_term NumR survival e1 s1 + K).
+  { unfold surv_term. rewrite Hfirst, sp1. destruct survival; cbn [sub NumR]; lra. }
+  rewrite Hsurv.
+  (* tips *)
+  assert (Htip : tips_sum NumR (existsb Qpos_bool tips) [0%Q; T] 1 [e] [(e, s)] None ys =
+                 tips_sum NumR (existsb Qpos_bool tips) [0%Q; c; T] 2 [e1; e2] es2 None ys
+                 - INR (count_if (fun y => Qle_bool y c) ys) * K).
+  { unfold tips_sum. destruct (existsb Qpos_bool tips) eqn:Es.
+    - apply tips_nsum_split. apply Forall_sub_le, Htips.
+    - unfold ys. rewrite (no_serial_count tips Htips Es). cbn [INR zero NumR]. lra. }
+  rewrite Htip.
+  (* boundary, rho and removal terms *)
+  cbn [boundary_terms rho_terms removal_part et0 et1 erho e e1 e2].
+  rewrite Qpos_bool_0, andb_false_r. rewrite log_q_R, sA2, sB2. fold A B.
+  cbn [et1 e2]. fold delta. fold K.
+  rewrite ofZ_R. rewrite minus_IZR, plus_IZR, <- !INR_IZR_INZ.
+  unfold c1. cbn [add sub mul zero one ofQ nln NumR]. rewrite Q2R_0, Rminus_0_r, ln_1.
+  ring.
+Qed.
+End Refine2.
+
 (* ---- statements in the form used by prop/C09.v ---- *)
 Lemma eA_Aof e : Aof NumR (elam e) (emu e) (epsi e) = eA e.
 Proof. apply Aof_R. Qed.
@@ -561,3 +782,10 @@ Lemma C09_example :
 Proof.
   repeat constructor; cbn [elam emu epsi erho et0 et1]; unfold Q2R; simpl; lra.
 Qed.
+
+Lemma C09_refine2 (l u p : R) (rho c T : Q) survival tips ints :
+  0 < l -> 0 < u -> 0 < p -> 0 <= Q2R rho <= 1 -> 0 < Q2R c -> Q2R c < Q2R T ->
+  List.Forall (fun h => 0 <= Q2R h) tips -> List.Forall (fun h => 0 <= Q2R h) ints ->
+  log_prob NumR survival None [mkEp l u p 0%Q 0%Q c; mkEp l u p rho c T] tips ints
+  = log_prob NumR survival None [mkEp l u p rho 0%Q T] tips ints.
+Proof. intros. apply refine2_l; assumption. Qed.
